@@ -62,6 +62,8 @@ impl TrackHandle {
 		let (mut track, handle) =
 			builder.build(self.renderer_shared.clone(), self.internal_buffer_size);
 		track.init_effects(self.renderer_shared.sample_rate.load(Ordering::SeqCst));
+		#[cfg(kira_verif)]
+		crate::verif_hooks::yield_point("add_track.after_sample_rate_load");
 		self.sub_track_controller.insert(track)?;
 		Ok(handle)
 	}
@@ -80,6 +82,8 @@ impl TrackHandle {
 			position.into().to_(),
 		);
 		track.init_effects(self.renderer_shared.sample_rate.load(Ordering::SeqCst));
+		#[cfg(kira_verif)]
+		crate::verif_hooks::yield_point("add_track.after_sample_rate_load");
 		self.sub_track_controller.insert(track)?;
 		Ok(handle)
 	}
